@@ -1,0 +1,6 @@
+//go:build !verif
+
+package client
+
+// verifPoint is a no-op unless built with the "verif" tag.
+func verifPoint(o *ovsdbClient, point string) {}
